@@ -189,7 +189,12 @@ class _SVD:
                 "solver": "lobpcg",
                 "random_state": self.random_state,
             }
-            U, s, VT = self._svd(X, complex_svd, solver_kwargs)
+            # The convergence criterion of lobpcg is absolute, so solve for the
+            # data normalised to unit magnitude and restore the scale afterwards
+            scale = np.abs(X).max()
+            scale = scale if scale > 0 else 1.0
+            U, s, VT = self._svd(X / scale, complex_svd, solver_kwargs)
+            s = s * scale
             idx_sort = np.argsort(s)[::-1]
             U = U[:, idx_sort]
             s = s[idx_sort]
